@@ -131,6 +131,29 @@ func TestVerifBoundedC43ListLaws(t *testing.T) {
 			}
 		}
 	}
+	// JSON records are decoded independently of one another
+	{
+		type rec struct {
+			A int            `json:"a,omitempty"`
+			S []int          `json:"s,omitempty"`
+			M map[string]int `json:"m,omitempty"`
+		}
+		stream := `{"a":1,"s":[1,2,3],"m":{"x":1}}` + "\n" + `{"s":[9]}` + "\n" + `{"m":{"y":2}}` + "\n" + `{}`
+		cases++
+		var got []rec
+		it := FromReaderJSON[rec](strings.NewReader(stream))
+		for it.Next() {
+			if it.Val().Err != nil {
+				fail("JSON records: %v", it.Val().Err)
+				break
+			}
+			got = append(got, it.Val().Val)
+		}
+		want := `[{1 [1 2 3] map[x:1]} {0 [9] map[]} {0 [] map[y:2]} {0 [] map[]}]`
+		if fmt.Sprint(got) != want {
+			fail("JSON records decoded as %v, want %s (every record on its own)", got, want)
+		}
+	}
 	fmt.Printf("BOUNDED-STATS {\"cases\":%d,\"failures\":%d,\"bound\":\"all sequences of length 0..6 over 3 values, limits -1..8\"}\n", cases, fails)
 	if fails > 0 {
 		t.Fail()
